@@ -794,6 +794,12 @@ def AccKind.fresh : AccKind → Bool
   | .store | .keepLast | .reqStore | .storeGroup | .groupBy _ => false
   | _ => true
 
+/-- the accumulators whose `compute()` can raise (`LenaZeroDivisionError` when nothing, or too little, was filled) -/
+def AccKind.canErr : AccKind → Bool
+  | .mean _ poe => !poe
+  | .vmc _ _ | .vecList | .meanCounts _ | .vecMulti _ => true
+  | _ => false
+
 /-- `reset()` of the accumulators: sums and counts to zero, `_cur_context = {}` (a new dictionary), the stored
 values forgotten (`StoreFilled.reset`, `GroupBy.reset`) -/
 def accReset (_ : AccSt) : AccSt := {}
